@@ -573,7 +573,7 @@ class Unit:
             # re-attach the subset of the item's own derives that Verus understands (must be present in /repo)
             m = re.search(r"#\[derive\(([^)]*)\)\]", raw)
             have = set(x.strip() for x in m.group(1).split(",")) if m else set()
-            missing = [d for d in keep_derive if d not in have]
+            missing = [d for d in keep_derive if d not in have and d != "Structural"]   # Structural: Verus marker for derived structural ==
             if missing:
                 raise LostAnchor("%s %s: derive(%s) not present in /repo" % (kind, name, ", ".join(missing)))
             text = "#[derive(%s)]\n" % ", ".join(keep_derive) + text
@@ -788,3 +788,21 @@ def r_dynw(text, ctx):
     text, k = re.subn(r"\b([a-z_]+)\.as_writer\(\)", r"\1", text)
     ctx.app("R-dynw", "&mut dyn SqlWriter x%d, .as_writer() x%d" % (n, k), "&mut W, W: VWrite")
     return text
+
+
+def r_retself(text, ctx):
+    """R-retself: `-> &mut Self { ...; self }`  ->  `{ ...; }`.  The chaining return value (an alias of the receiver) is dropped."""
+    header, body = fn_split(text)
+    h2, n = re.subn(r"\s*->\s*&mut Self\b", "", header)
+    if n != 1:
+        raise LostAnchor(ctx.key + ": R-retself: no `-> &mut Self`")
+    close = body.rstrip().rfind("}")
+    inner = body[1:close].rstrip()
+    if re.search(r"(^|[;}\s])self$", inner):
+        inner = inner[:-4].rstrip()
+    elif re.search(r"\bself\.[a-z_]+\([^;{}]*\)$", inner):
+        inner = inner + ";"     # tail call of another chaining method on self (itself rewritten to return ())
+    else:
+        raise LostAnchor(ctx.key + ": R-retself: body does not end in `self` or a chaining call")
+    ctx.app("R-retself", "-> &mut Self ... self", "-> ()")
+    return h2 + " {" + inner + "\n    }"
